@@ -13,7 +13,8 @@ RULE = ('EXHAUSTIVE: every (estimator, non-deprecated constructor parameter) x v
         'ndarray (float64, int, bool, float32), list, tuple, callable, int, float, bool, str, None} (only documented values where the constructor validates eagerly) - '
         'construction, set_params, clone; every deprecated alias; every method of every unfitted estimator; pickle '
         'round trip of every fitted estimator with no / array / callable preprocessor. GENERATED: Hypothesis sequences '
-        'of set_params / clone / pickle / fit on top, with a dict model of the parameters, and for numeric hyper-'
+        'of set_params (numeric values; array-valued init / prior / basis as plain, Fortran, float32, integer, '
+        'read-only and ndarray-subclass arrays, whose bytes must never change) / clone / pickle / fit on top, with a dict model of the parameters, and for numeric hyper-'
         'parameters the differential Est(p=v).fit == Est().set_params(p=v).fit == clone.fit. Each (estimator, '
         'parameter, value kind) cell and each sequence is a distinct non-trivial case.')
 ASSUMPTIONS = ['clone is sklearn.base.clone; equality after clone/pickle is ==, array_equal for arrays, identity for functions',
@@ -231,16 +232,51 @@ ALT = {
 }
 
 
+ARRAY_PARAM = {'LMNN': 'init', 'NCA': 'init', 'MLKR': 'init', 'ITML': 'prior', 'ITML_Supervised': 'prior',
+               'LSML': 'prior', 'LSML_Supervised': 'prior', 'SDML': 'prior', 'SDML_Supervised': 'prior',
+               'MMC': 'init', 'MMC_Supervised': 'init', 'SCML': 'basis', 'SCML_Supervised': 'basis'}
+ARRAY_KINDS = ['plain', 'fortran', 'f32', 'subclass', 'readonly', 'int']
+
+
+class TaggedArray(np.ndarray):
+  """a plain user subclass of ndarray (an array carrying metadata; np.memmap is another one)"""
+
+
+def array_value(name, d, aseed, kind):
+  """a valid array value of the estimator's array-valued option, in one of several array flavours"""
+  p = ARRAY_PARAM[name]
+  spd = p == 'prior' or name.startswith('MMC')
+  if p == 'basis':
+    a = gen.basis_from_seed(d + 3, d, aseed)
+  elif spd:
+    a = gen.spd_from_seed(d, aseed)
+  else:
+    a = gen.transform_from_seed(d, d, aseed)
+  if kind == 'fortran':
+    a = np.asfortranarray(a)
+  elif kind == 'f32':
+    a = a.astype(np.float32)
+  elif kind == 'subclass':
+    a = a.view(TaggedArray)
+  elif kind == 'readonly':
+    a.setflags(write=False)
+  elif kind == 'int' and spd:
+    a = np.eye(d, dtype=int) * (d + 1 + aseed % 3) + 1
+  return a
+
+
 @st.composite
 def seq_case(draw, name):
   alts = sorted(ALT[name])
   ops = []
   for _ in range(draw(st.integers(1, 6))):
-    op = draw(st.sampled_from(['set', 'set', 'clone', 'pickle', 'pickle', 'fit', 'prep']))
+    op = draw(st.sampled_from(['set', 'set', 'clone', 'pickle', 'pickle', 'fit', 'prep'] + (['arr', 'arr'] if name in ARRAY_PARAM else [])))
     if op == 'set' and alts:
       ops.append(['set', draw(st.sampled_from(alts))])
     elif op == 'prep':
       ops.append(['prep', draw(st.integers(0, 2))])
+    elif op == 'arr':
+      ops.append(['arr', draw(st.integers(0, 99)), draw(st.sampled_from(ARRAY_KINDS))])
     elif op != 'set':
       ops.append([op])
   first = draw(st.sampled_from(alts)) if alts else None
@@ -267,8 +303,21 @@ def check_seq(case, stats):
   est = E.build(name, dict(model))
   exp = (RuntimeError,) if 'SDML' in name else (ValueError,) if ('MMC' in name or name == 'RCA_Supervised') else ()
   fitted = False
+  handed = []          # (array handed to the estimator, private snapshot)
+  arr_spec = None
   for op in case['ops']:
-    if op[0] == 'set':
+    if op[0] == 'arr':
+      pa = ARRAY_PARAM[name]
+      arr = array_value(name, data.d, op[1], op[2])
+      handed.append((arr, np.array(arr, copy=True, subok=False)))
+      arr_spec = (op[1], op[2])
+      model[pa] = arr
+      if pa == 'basis':
+        model['n_basis'] = None
+        call('C18/seq-set_params/' + name, est.set_params, n_basis=None)
+      call('C18/seq-set_params/' + name, est.set_params, **{pa: arr})
+      stats.classes['array-option:' + op[2]] += 1
+    elif op[0] == 'set':
       model[op[1]] = ALT[name][op[1]]
       call('C18/seq-set_params/' + name, est.set_params, **{op[1]: model[op[1]]})
     elif op[0] == 'clone':
@@ -295,11 +344,20 @@ def check_seq(case, stats):
         raise Discard('specified fit failure (%s)' % type(r).__name__)
       fitted = True
     gp = est.get_params()
+    for arr, snapv in handed:
+      if not bits_equal(np.asarray(arr), snapv):
+        raise Violation('C18/seq-array-param-modified/' + name, 'after %s: the array handed to the estimator changed by %g'
+                        % (op, np.abs(np.asarray(arr, dtype=float) - snapv).max()))
     for p, v in model.items():
       if not same_value(gp[p], v):
         raise Violation('C18/seq-params/%s/%s' % (name, p), 'after %s: %r, expected %r' % (op, gp[p], v))
+      if isinstance(v, np.ndarray) and type(gp[p]) is not type(v):
+        raise Violation('C18/seq-params-type/%s/%s' % (name, p), 'after %s: %s, expected %s' % (op, type(gp[p]), type(v)))
   # differential: constructing with the final parameters == the history
-  ref = E.build(name, dict(model))
+  final = dict(model)
+  if arr_spec is not None:
+    final[ARRAY_PARAM[name]] = array_value(name, data.d, *arr_spec)      # a pristine array of the same values
+  ref = E.build(name, final)
   r1 = call('C18/seq-final-fit/' + name, est.fit, *E.fit_args(name, data), expect=exp)
   r2 = call('C18/seq-ref-fit/' + name, ref.fit, *E.fit_args(name, data), expect=exp)
   if isinstance(r1, Exception) or isinstance(r2, Exception):
@@ -311,6 +369,10 @@ def check_seq(case, stats):
   if not ok:
     raise Violation('C18/seq-behaviour/' + name, 'history %s: fitted model differs from Est(**final_params).fit: %r vs %r'
                     % (case['ops'], M1, M2))
+  for arr, snapv in handed:
+    if not bits_equal(np.asarray(arr), snapv):
+      raise Violation('C18/seq-array-param-modified/' + name, 'after the final fit: the array handed to the estimator changed by %g'
+                      % np.abs(np.asarray(arr, dtype=float) - snapv).max())
   stats.case(case, len(case['ops']) >= 2, [name, 'seq'])
 
 
